@@ -29,6 +29,7 @@ type Case struct {
 	Entry string    `json:"entry"`
 	Inp   []int     `json:"inp"`
 	Inp2  []int     `json:"inp2"`
+	Pre2  []int     `json:"pre2"` // dec2x: values put into the receiving message's SecurityHeader view before the decode
 	M     string    `json:"m"`
 	Mand  []rm.Slot `json:"mand"`
 	Opt   []rm.Slot `json:"opt"`
@@ -601,6 +602,29 @@ func execCase(c Case, rng *rand.Rand, emit func(interface{})) {
 		})
 		if e.Ok = err == nil; e.Ok {
 			disturb(c.Entry, first)
+			e.Proj = rm.Project(m)
+		}
+		emit(e)
+	case "dec2x": // the receiving nas.Message is NOT fresh: it has decoded Inp (possibly of the other family) before and / or its
+		// embedded SecurityHeader view was filled in by the caller (Pre = [EPD, security header type]), as a security layer does
+		// before handing the plain message on.  Routing looks at the octets of Inp2 only.  Event DecX: accept / reject and the
+		// routed body are judged; what remains of the OTHER family's earlier message is not.
+		m := nas.NewMessage()
+		if c.Inp != nil {
+			first := ev.Bytes(c.Inp)
+			ev.Guard(func() { _ = decodeEntry(m, c.Entry, &first) })
+		}
+		if len(c.Pre2) == 2 {
+			m.SecurityHeader.ProtocolDiscriminator = uint8(c.Pre2[0])
+			m.SecurityHeader.SecurityHeaderType = uint8(c.Pre2[1])
+		}
+		e := Dec{Op: "DecX", Entry: c.Entry, N: len(c.Inp2), Inp: c.Inp2, Proj: rm.EmptyProj()}
+		second := ev.Bytes(c.Inp2)
+		var err error
+		pi := ev.Guard(func() { err = decodeEntry(m, c.Entry, &second) })
+		if pi != nil {
+			e.Panic, e.Pfn = true, pi.Fn+": "+pi.Kind
+		} else if e.Ok = err == nil; e.Ok {
 			e.Proj = rm.Project(m)
 		}
 		emit(e)
